@@ -1,8 +1,8 @@
 (* Property C19 — ordered maps behave as insertion-ordered maps under any operation
    sequence.  Only statements; proofs live in Omap/OmapProofs.v and Omap/OmapConc.v. *)
-From Coq Require Import List ZArith Bool.
+From Coq Require Import List ZArith Bool Sorted.
 Import ListNotations.
-From JS Require Import Gen.OmapLocks Omap.Omap Omap.OmapSpec Omap.OmapProofs Omap.OmapLaws Omap.OmapConc.
+From JS Require Import Gen.OmapLocks Omap.Omap Omap.OmapSpec Omap.OmapProofs Omap.OmapLaws Omap.OmapBirth Omap.OmapConc.
 
 Section C19.
 Context {V : Type} (zero : V).
@@ -100,6 +100,16 @@ Theorem C19_before_strict : forall (m : @omap V) a b, Inv m -> before a b (abs z
   a <> b /\ m_has m a = true /\ m_has m b = true.
 Proof. exact (m_before_strict zero). Qed.
 
+(* whole histories: stamp every step with its index and remember, per key, the index of the Set
+   that inserted it while absent (Omap/OmapBirth.v, [t_step]).  After ANY history the iterated keys
+   of the model of the Go type are in strictly increasing order of those births: iteration order
+   is (latest) insertion order of the live keys and nothing else ever changes it. *)
+Theorem C19_iteration_is_birth_order : forall ops : list (@op V),
+  let st := t_run zero 0 ([], b0) ops in
+  abs zero (fst (run zero empty ops)) = fst st /\
+  StronglySorted lt (map (snd st) (map fst (fst st))).
+Proof. exact (birth_sorted zero). Qed.
+
 Theorem C19_any_interleaving : forall (threads : list (list (@op V))) h, interleaving threads h ->
   snd (run zero empty h) = snd (s_run zero [] h) /\
   abs zero (fst (run zero empty h)) = fst (s_run zero [] h) /\
@@ -124,6 +134,12 @@ Example C19_before_somewhere :
   before 1 2 (abs 0%Z m) /\ ~ before 2 1 (abs 0%Z m).
 Proof. split; [reflexivity|discriminate]. Qed.
 
+(* births on a concrete history: 0 is deleted and set again, so it is born at step 4 and comes last *)
+Example C19_births_somewhere :
+  let st := t_run 0%Z 0 ([], b0) [OSet 1 5%Z; OSet 0 2%Z; OSet 2 9%Z; ODelete 0; OSet 0 7%Z; OSet 1 6%Z] in
+  map fst (fst st) = [1; 2; 0] /\ map (snd st) [1; 2; 0] = [0; 2; 4].
+Proof. split; reflexivity. Qed.
+
 Print Assumptions C19_refines.
 Print Assumptions C19_step.
 Print Assumptions C19_filter_visits_each_once.
@@ -142,5 +158,6 @@ Print Assumptions C19_order_stable_update.
 Print Assumptions C19_order_stable_delete.
 Print Assumptions C19_order_stable_filter.
 Print Assumptions C19_before_strict.
+Print Assumptions C19_iteration_is_birth_order.
 Print Assumptions C19_lock_discipline.
 Print Assumptions C19_api_complete.
